@@ -547,15 +547,17 @@ func runMatchPair(c *core.Ctx) {
 		ok, why := impliesFalse(c, match, lk)
 		c.Check(ok && len(wrong) == 0, nil, fname(c, match), "pair("+row.cond+")", P.Pos(lk.Pos()), row.cond+"[event."+row.attr+"] false ⇒ no match", "a miss in "+row.cond+" does not force 'no match': "+why)
 	}
-	// tags: Tags[tag[0]][tag[1] or ""] marks tag[0] as found; fewer found names than conditions ⇒ no match
+	// tags: Tags[tag[0]][tag[1] or ""] marks tag[0] as found; fewer found names than conditions ⇒ no match.
+	// The tag phase may live in Match or in a private helper it delegates to (host).
 	var inner *ssa.Lookup
-	an.Instrs(match, func(in ssa.Instruction) {
-		l, ok := in.(*ssa.Lookup)
+	var innerOcc an.Occ
+	an.Region(match, nil, func(o an.Occ) {
+		l, ok := o.In.(*ssa.Lookup)
 		if !ok {
 			return
 		}
-		if o, ok := l.X.(*ssa.Lookup); ok && an.PathOf(o.X) == "recv.f.Tags" && an.PathOf(o.Index) == ev+".Tags[*][0]" {
-			inner = l
+		if lk, ok := l.X.(*ssa.Lookup); ok && o.Path(lk.X) == "recv.f.Tags" && o.Path(lk.Index) == ev+".Tags[*][0]" {
+			inner, innerOcc = l, o
 		}
 	})
 	c.CountSites(2)
@@ -563,12 +565,14 @@ func runMatchPair(c *core.Ctx) {
 		c.Bad(nil, fname(c, match), "pair(Tags)", P.Pos(match.Pos()), "tag conditions are not looked up by the event tag's name (tag[0])")
 		return
 	}
-	vp := an.PathOf(inner.Index)
+	host := inner.Parent()
+	tr := innerOcc.Path
+	vp := tr(inner.Index)
 	valOK := strings.Contains(vp, ev+".Tags[*][1]") && strings.Contains(vp, `const:""`) || vp == ev+".Tags[*][1]"
 	// the found-set update is guarded by the lookup and keyed by the tag name
 	var mu *ssa.MapUpdate
-	an.Instrs(match, func(in ssa.Instruction) {
-		if m, ok := in.(*ssa.MapUpdate); ok && an.PathOf(m.Key) == ev+".Tags[*][0]" {
+	an.Instrs(host, func(in ssa.Instruction) {
+		if m, ok := in.(*ssa.MapUpdate); ok && tr(m.Key) == ev+".Tags[*][0]" {
 			if _, local := an.Unwrap(m.Map).(*ssa.MakeMap); local {
 				mu = m
 			}
@@ -576,33 +580,43 @@ func runMatchPair(c *core.Ctx) {
 	})
 	guarded := false
 	if mu != nil {
-		for _, g := range an.Guards(match, mu.Block()) {
+		for _, g := range an.Guards(host, mu.Block()) {
 			if g.V == ssa.Value(inner) && g.True {
 				guarded = true
 			}
 		}
 	}
-	c.Check(valOK && guarded, nil, fname(c, match), "pair(Tags)", P.Pos(inner.Pos()), "a tag name counts as found iff Tags[name] lists the tag's value (tag[1], or \"\" for a one-element tag)",
+	c.Check(valOK && guarded, nil, fname(c, match), "pair(Tags)", P.Pos(innerOcc.Site().Pos()), "a tag name counts as found iff Tags[name] lists the tag's value (tag[1], or \"\" for a one-element tag)",
 		fmt.Sprintf("tag lookup value ← %s (ok=%v); found-set update guarded by the lookup: %v", vp, valOK, guarded))
-	// all conditions: reject iff len(found) < len(Tags)
+	// all conditions: the host answers "no match" iff len(found) < len(Tags) …
 	okCount := false
 	detail := "no comparison of the number of found tag names with the number of tag conditions"
 	if mu != nil {
-		fr := an.SymFrame("len("+an.PathOf(mu.Map)+")", "len(recv.f.Tags)")
+		fr := an.SymFrame("len("+an.PathOf(mu.Map)+")", "len(recv.f.Tags)").AssumePresent("recv.f.Tags")
 		fr.Domain = nil
-		for _, rb := range an.ReturnBlocks(match) {
-			if !isConstBool(an.LastInstr(rb).(*ssa.Return).Results[0], false) {
-				continue
-			}
-			for _, g := range an.Guards(match, rb) {
-				if a, ok := fr.Atom(g.V, g.True); ok {
-					detail = "rejected when #found ∈ " + a.Format("#conditions")
-					okCount = a.Equal(an.Range(an.NegInf, -1))
+		// (read off the paths on which the host's verdict may be true: the count must be ≥ #conditions)
+		if tps, ok := an.ResultPaths(host, 0, true); ok && len(tps) > 0 {
+			acc := an.Empty()
+			for _, tp := range tps {
+				if tp.Path.Contains(mu.Block()) || an.Reachable(host.Blocks[0], mu.Block(), nil, nil) {
+					acc = acc.Union(tp.Meaning(fr))
 				}
+			}
+			detail = "a match is possible when #found ∈ " + acc.Format("#conditions")
+			okCount = acc.Equal(an.Range(0, an.PosInf))
+		}
+	}
+	// … and that verdict forces Match's, through every helper level
+	if okCount && host != match {
+		for i := len(innerOcc.Chain) - 1; i >= 0 && okCount; i-- {
+			ok, why := impliesFalse(c, innerOcc.Chain[i].Parent(), innerOcc.Chain[i])
+			if !ok {
+				okCount = false
+				detail = "the tag phase's verdict does not force Match's: " + why
 			}
 		}
 	}
-	c.Check(okCount, nil, fname(c, match), "all-tag-conditions", P.Pos(match.Pos()), "no match iff fewer tag names were found than there are #x conditions (every #x must hold)", detail+", want (-∞,#conditions)")
+	c.Check(okCount, nil, fname(c, match), "all-tag-conditions", P.Pos(match.Pos()), "no match iff fewer tag names were found than there are #x conditions (every #x must hold)", detail+", want [#conditions,+∞)")
 }
 
 func init() {
